@@ -7,6 +7,10 @@ import (
 	"encoding/json"
 	"fmt"
 	"os"
+	"os/exec"
+	"path/filepath"
+	"sort"
+	"strings"
 )
 
 func thoroughExtra(c *Ctx, spec *PropSpec, r *Report, repo, mod string) {
@@ -40,6 +44,9 @@ func thoroughExtra(c *Ctx, spec *PropSpec, r *Report, repo, mod string) {
 		done = append(done, fmt.Sprintf("%s: %d obligations, %d not holding", cf.name, len(r2.Obs), bad))
 	}
 	r.Tables["build_configurations"] = done
+	if os.Getenv("VERIF_NO_SELFTEST") == "" {
+		r.Tables["selftest"] = selftest(spec, repo)
+	}
 }
 
 func explainOne(r *Report, path string) {
@@ -57,4 +64,80 @@ func explainOne(r *Report, path string) {
 		}
 	}
 	fmt.Printf("explain: %s %s no longer exists in the current tree\n", v.Rule, v.Construct)
+}
+
+// selftest (thorough tier, informational): runs this property's check, in a separate process per variant,
+// on scratch copies of the tree with (a) each seeded/mutant patch that is recorded as breaking this property
+// — expected to be reported — and (b) each behaviour-preserving patch — expected to stay silent. The result
+// is written into the evidence; it never changes the verdict on the tree under analysis (a patch that does
+// not apply to the current tree is skipped).
+func selftest(spec *PropSpec, repo string) map[string]interface{} {
+	type variant struct{ name, patch, kind string }
+	var vs []variant
+	if ents, err := os.ReadDir("/verif/seeded"); err == nil {
+		for _, e := range ents {
+			if e.IsDir() && strings.HasPrefix(e.Name(), spec.ID+"-") {
+				vs = append(vs, variant{e.Name(), filepath.Join("/verif/seeded", e.Name(), "patch.diff"), "breaking"})
+			}
+		}
+	}
+	if ents, err := os.ReadDir("/verif/mutants"); err == nil {
+		for _, e := range ents {
+			switch {
+			case strings.HasPrefix(e.Name(), spec.ID+"-"):
+				vs = append(vs, variant{e.Name(), filepath.Join("/verif/mutants", e.Name()), "breaking"})
+			case strings.HasPrefix(e.Name(), "neutral-"):
+				vs = append(vs, variant{e.Name(), filepath.Join("/verif/mutants", e.Name()), "neutral"})
+			}
+		}
+	}
+	res := map[string]interface{}{}
+	var rows []string
+	det, ndet, sil, nsil, skipped := 0, 0, 0, 0, 0
+	for _, v := range vs {
+		dir, err := os.MkdirTemp("", "verif-selftest-")
+		if err != nil {
+			continue
+		}
+		ok := exec.Command("rsync", "-a", "--exclude", ".git", repo+"/", dir+"/").Run() == nil
+		if ok {
+			cmd := exec.Command("patch", "-p1", "-s", "-i", v.patch)
+			cmd.Dir = dir
+			ok = cmd.Run() == nil
+		}
+		if !ok {
+			skipped++
+			rows = append(rows, v.name+": skipped (patch does not apply to the current tree)")
+			os.RemoveAll(dir)
+			continue
+		}
+		cmd := exec.Command(os.Args[0], "-repo", dir, "-property", spec.ID, "-tier", "quick", "-evidence-dir", filepath.Join(dir, ".ev"), "-known", "/verif/known-findings.json", "-controls", "")
+		out, _ := cmd.CombinedOutput()
+		reported := strings.Contains(string(out), "\n  violated [") || strings.Contains(string(out), "\n  undecided [") || strings.HasPrefix(string(out), "  violated [") || strings.Contains(string(out), "CHECKER-")
+		switch v.kind {
+		case "breaking":
+			ndet++
+			if reported {
+				det++
+				rows = append(rows, v.name+": reported (expected)")
+			} else {
+				rows = append(rows, v.name+": NOT reported (a recorded breaking change is missed)")
+			}
+		case "neutral":
+			nsil++
+			if !reported {
+				sil++
+				rows = append(rows, v.name+": silent (expected)")
+			} else {
+				rows = append(rows, v.name+": ALARM on a behaviour-preserving change")
+			}
+		}
+		os.RemoveAll(dir)
+	}
+	sort.Strings(rows)
+	res["breaking_reported"] = fmt.Sprintf("%d/%d", det, ndet)
+	res["neutral_silent"] = fmt.Sprintf("%d/%d", sil, nsil)
+	res["skipped"] = skipped
+	res["variants"] = rows
+	return res
 }
